@@ -72,7 +72,12 @@ def engine_recipes():
     last = R.clone(mamdani)  # Last walks the rules backwards: the block's own rule order must not change
     last["name"] = "last"
     last["blocks"][0]["activation"] = ["Last", 1, 0.0]
-    return [mamdani, larsen, sugeno, tsukamoto, hybrid, locked, first, last]
+    shared = R.clone(larsen)  # ONE Highest(3) object shared by both (two-rule) blocks, one operator object per kind
+    shared["name"] = "shared"
+    for b in shared["blocks"]:
+        b["activation"] = ["Highest", 3]
+    shared["shared_objects"] = True
+    return [mamdani, larsen, sugeno, tsukamoto, hybrid, locked, first, last, shared]
 
 
 # ----------------------------------------------------------------------------------------------------------------------
@@ -433,7 +438,7 @@ def summarize(tier: str, seed: int, merged: dict) -> dict:
     return {
         "rule": (
             f"{len(engine_recipes())} engines (Mamdani, Larsen with chained blocks, Takagi-Sugeno with Linear and a Function reading an input and an "
-            f"earlier output, Tsukamoto, hybrid, lock-previous, First- and Last-activated) x all histories of length <= {depth} over {len(OPS)} operations "
+            f"earlier output, Tsukamoto, hybrid, lock-previous, First- and Last-activated, one with a Highest(3) activation object shared by two blocks) x all histories of length <= {depth} over {len(OPS)} operations "
             f"{OPS}, breadth-first with states merged on the structural digest of all live engines; states = distinct digests, "
             "transitions = operations executed with oracles on, traces = fresh-engine comparisons; non-trivial = process / "
             "restart / copy / toggle executed after at least one earlier operation"
